@@ -807,7 +807,17 @@ class Store:
                 results.append((dkey, new))
         for dkey, new in results:
             if op.aug:
-                raise Unsupported("augmented slice assignment from array")
+                # dst op= src: every destination cell keeps its own expression, combined with the (shifted) source expression
+                opn = {"Add": lambda a, b: a + b, "Sub": lambda a, b: a - b, "Mult": lambda a, b: a * b, "Div": lambda a, b: a / b}.get(op.aug)
+                if opn is None:
+                    raise Unsupported("augmented slice assignment with operator %s" % op.aug)
+                comb = []
+                for box, e in new:
+                    for p in self.pieces(dkey):
+                        inter = p.box.intersect(box)
+                        if not inter.is_empty():
+                            comb.append((inter, opn(PW.of(p.expr), PW.of(e))))
+                new = comb
             self.write_many(dkey, new)
             self.merge(dkey)
 
